@@ -163,6 +163,10 @@ def instances(rng):
         datetime.date(2020, 2, 29), datetime.date.min, datetime.date.max,
         datetime.timezone.utc, tz2, datetime.timezone(td(hours=-5, minutes=-30), 'NAME'), datetime.timezone(td(seconds=1)),
         pytz.utc, pytz.timezone('Europe/Helsinki'), pytz.timezone('US/Eastern'),
+        # static zones whose offset is zero but which are not pytz.utc (equal offsets do not make equal zones), fixed non-zero offsets
+        pytz.timezone('GMT'), pytz.timezone('Etc/UTC'), pytz.timezone('Zulu'), pytz.timezone('Etc/GMT'), pytz.timezone('UCT'), pytz.timezone('Etc/GMT+5'),
+        pytz.timezone('Etc/GMT-14'), datetime.datetime(2021, 3, 4, 5, 6, tzinfo=pytz.timezone('GMT')), datetime.time(1, 2, tzinfo=pytz.timezone('Etc/UTC')),
+        datetime.timezone(datetime.timedelta(0)), datetime.timezone(datetime.timedelta(0), 'Z'), datetime.datetime(2021, 3, 4, tzinfo=datetime.timezone(datetime.timedelta(0), 'Z')),
         pytz.timezone('Europe/Helsinki').localize(datetime.datetime(2020, 6, 1, 12)), pytz.timezone('Europe/Helsinki').localize(datetime.datetime(2020, 6, 1, 12)).tzinfo,
         collections.OrderedDict(), collections.OrderedDict([(2, 'b'), (1, 'a')]),
         collections.defaultdict(list), collections.defaultdict(list, {'a': [1]}), collections.defaultdict(None, {1: 2}), collections.defaultdict(int, a=1),
@@ -232,7 +236,9 @@ def equal_reconstruction(a, b):
     if isinstance(a, datetime.time):
         return a == b and a.fold == b.fold
     if isinstance(a, datetime.timezone):
-        return a == b and a.tzname(None) == b.tzname(None)
+        # the name is compared too (it is printed, and == ignores it) - except for a zero offset: every such zone == timezone.utc, the
+        # printer writes it as datetime.timezone.utc, and "an equal object" is all the property asks for
+        return a == b and (a.tzname(None) == b.tzname(None) or a == datetime.timezone.utc)
     return a == b
 
 
@@ -361,6 +367,41 @@ def printer_coverage(vals):
     return [x for x in inv if x.split(':')[-1] in called], [x for x in inv if x.split(':')[-1] not in called]
 
 
+def long_arguments_check():
+    """the settings reach the arguments of call-style printers: with max_seq_len=None nothing inside a bounded deque, a defaultdict, a
+    two-map ChainMap, a namedtuple / SimpleNamespace field or exception args is dropped, however long (longer than the default 1000);
+    with max_seq_len=3 every such container is cut to 3.  Oracle only."""
+    import re
+    bad = []
+    long_list = list(range(1003))
+    vals = [collections.deque(long_list, maxlen=2000), collections.defaultdict(list, {i: i for i in range(1002)}),
+            collections.ChainMap({i: 0 for i in range(1001)}, {'b': long_list}), Point(long_list, 2), types.SimpleNamespace(a=long_list, b=1),
+            ValueError(long_list, 'x'), collections.OrderedDict((i, i) for i in range(1001)), collections.Counter(range(1001)),
+            functools.partial(a_function, long_list, key=tuple(long_list))]
+    for v in vals:
+        with warnings.catch_warnings():
+            warnings.simplefilter('ignore')
+            try:
+                text = pp.pformat(v, max_seq_len=None, width=120)
+                got = eval('(' + text + '\n)', dict(scope()))
+            except Exception as e:
+                bad.append({'kind': 'stdlib-printer', 'why': 'max_seq_len=None, more than 1000 elements inside: %s: %s' % (type(e).__name__, e), 'value': repr(v)[:120], 'type': type(v).__name__})
+                continue
+            if 'more elements' in text or not equal_reconstruction(v, got):
+                bad.append({'kind': 'stdlib-printer', 'why': 'max_seq_len=None, yet elements inside a call argument are dropped (the text has %d truncation comments)' % text.count('more elements'),
+                            'value': repr(v)[:120], 'type': type(v).__name__})
+                continue
+            try:
+                short = pp.pformat(v, max_seq_len=3, width=120)
+            except Exception as e:
+                bad.append({'kind': 'stdlib-printer', 'why': 'max_seq_len=3 raises %s' % type(e).__name__, 'value': repr(v)[:120], 'type': type(v).__name__})
+                continue
+            if len(re.findall(r'\b\d{3,4}\b', short)) > 12:
+                bad.append({'kind': 'stdlib-printer', 'why': 'max_seq_len=3, yet a container inside a call argument is printed with more than 3 elements: %s' % short[:200].replace('\n', ' '),
+                            'value': repr(v)[:120], 'type': type(v).__name__})
+    return bad[:3]
+
+
 def sorted_keys_check():
     """dict-like values whose KEYS are instances of the stdlib types, printed with sort_dict_keys=True (the sort key is computed from the
     key objects: namedtuples, dates, paths, enums, UUIDs, frozen sets of them): no printer may fail, and the text evaluates back.
@@ -425,6 +466,7 @@ def stdlib_section(tier, seed, mode='c07'):
             fails.extend(ff)
     if mode == 'c07':
         fails.extend(sorted_keys_check())
+        fails.extend(long_arguments_check())
     invoked, not_invoked = printer_coverage(vals)
     stats = {'evaluations': tot, 'distinct_nontrivial': nt, 'instances': len(vals), 'cases': len(cases), 'mismatches': len(mism),
              'types': sorted({type(v).__name__ for v in vals}),
